@@ -94,6 +94,10 @@ def run(ctx):
         if len(jobs) < nhuge and (j0 * fc * n // d) * d < 2**64:
             continue
         jobs.append((ctx.work, n, d, fc, sc, range(j0, j0 + nj), sc * rng.choice([2, 3, 24]) if len(jobs) % 3 == 2 else None))
+    # a recording that starts at the epoch: index 0 is a boundary index too (file number 0 of 1970-01-01T00-00-00)
+    n0, d0, fc0, sc0 = draw_config(rng, None)
+    if 8 * fc0 * n0 // d0 < 2**62:
+        jobs.append((ctx.work, n0, d0, fc0, sc0, range(0, 6), None))
     nconf = len(jobs)
     with quiet_stderr():
         with mc._pool(nconf) as ex:
